@@ -207,6 +207,9 @@ class Balance:
         hist = {}
         acq = {}
         alias = {}
+        shared = set()   # terms some container took its own reference on
+        dead = {}        # term -> event at which our last reference was dropped by cbor_decref
+        self.uaf = []
 
         def res(t):
             return alias.get(t, t)
@@ -230,6 +233,11 @@ class Balance:
             acquire(("arg", j), "consumed parameter", None)
         last_top = {}         # stack pointer term -> most recently loaded top record term
         for e in pa.events:
+            if dead and e.kind in ("load", "store", "call"):
+                for a in (e.args[:1] if e.kind != "call" else e.args):
+                    bt = res(base_of(a)) if isinstance(a, tuple) else a
+                    if bt in dead and not (e.kind == "call" and e.callee in ("cbor_decref",) and False):
+                        self.uaf.append((bt, dead[bt], e))
             if e.kind == "load":
                 b, off = ptr_key(e.args[0])
                 if off == self.top_off and e.ins is not None and e.ins.type.endswith("_cbor_stack_record*"):
@@ -264,6 +272,10 @@ class Balance:
                         else:
                             held = ("slot", e.args[0])
                     bump(held, -1, "cbor_decref", e)
+                    hr = res(held)
+                    if hr in bal and bal[hr] == 0 and hr not in shared and acq.get(hr) is not None and acq[hr].kind == "call" \
+                            and (acq[hr].callee or "").startswith(("cbor_new_", "cbor_build_", "cbor_copy")):
+                        dead[hr] = e
                     if res(held) not in bal:
                         # releasing a reference this function does not own: record as a debt
                         t = res(held)
@@ -284,7 +296,10 @@ class Balance:
                     for k in CONSUMES[c]:
                         bump(e.args[k], -1, "%s consumes it" % c, e)
                 elif c in TAKES_REF:
-                    pass  # the container takes its own +1; the caller's reference is unaffected
+                    # the container takes its own +1; the caller's reference is unaffected
+                    for k in TAKES_REF[c]:
+                        if k < len(e.args):
+                            shared.add(res(e.args[k]))
                 if returns_owned(c) and e.res != ("void",):
                     acquire(e.res, "returned by %s" % c, e)
             elif e.kind == "ret":
